@@ -529,3 +529,85 @@ def golden_spiral(ctx, case=None):
 
 
 contract("C13", "mdtraj/geometry/src/sasa.cpp", "generate_sphere_points", lang="c", replay="sasa", covers=["point-iteration", "finished"], max_paths=50)(golden_spiral)
+
+
+# =====================================================================================================
+# shrake_rupley (mdtraj/geometry/sasa.py): what the Python wrapper hands to the kernel and how it initialises / returns the output
+def shrake_rupley_py(ctx, case):
+    """radii = table[element] (+ change_radii) + probe_radius; atom->group mapping (atom mode: identity, residue mode: residue index);
+    selection mask from atom_indices; output starts at 0 for groups with a selected atom and at -1 for the others (so unselected atoms /
+    residues without selected atoms are reported as -1: the kernel only ever adds to groups of selected atoms)."""
+    import numpy as np
+    from mdvc import npobj
+    from mdvc.pyinterp import Namespace
+
+    mode, sel = case
+    ex = ctx.ex
+    interp = ctx.interp
+    interp.import_models["numpy"] = npobj.NumpyO()
+    calls = []
+
+    def _sasa(xyz, radii, n_sphere_points, mapping, mask, out):
+        calls.append(dict(xyz=xyz, radii=np.array(radii, dtype=object), nsp=n_sphere_points, mapping=np.array(mapping), mask=np.array(mask), out0=np.array(out, dtype=object).copy()))
+
+    interp.import_models["mdtraj.geometry"] = Namespace("geometry", _geometry=Namespace("_geometry", _sasa=_sasa))
+    import copy as _copy
+
+    interp.import_models["copy"] = Namespace("copy", deepcopy=_copy.deepcopy, copy=_copy.copy)  # a dict of floats
+    mod = ctx.module("mdtraj/geometry/sasa.py")
+    table = mod.globals["_ATOMIC_RADII"]
+    elements = ["C", "H", "O", "N", "S"]
+    res_of = [0, 0, 1, 1, 2]
+
+    class El:
+        def __init__(self, s):
+            self.symbol = s
+
+    class Res:
+        def __init__(self, i):
+            self.index = i
+
+    class At:
+        def __init__(self, i):
+            self.index, self.element, self.residue = i, El(elements[i]), Res(res_of[i])
+
+    class Top:
+        atoms = [At(i) for i in range(5)]
+
+    class T:
+        pass
+    t = T()
+    t.xyz = np.zeros((2, 5, 3), dtype=np.float32)
+    t.n_atoms, t.n_residues, t.top, t.topology = 5, 3, Top, Top
+    probe, rO = ctx.real("probe_radius"), ctx.real("radius_O")
+    ctx.assume(probe >= 0, rO > 0)
+    atom_indices = {"all": None, "subset": [1, 2]}[sel]
+    out = ctx.call(mod.globals["shrake_rupley"], t, probe_radius=probe, n_sphere_points=77, mode=mode, change_radii={"O": rO}, atom_indices=atom_indices)
+    ctx.ensure("no-exception", not out.raised)
+    if out.raised:
+        return
+    ctx.cover("returned")
+    ctx.ensure("kernel-called-once", len(calls) == 1)
+    if len(calls) != 1:
+        return
+    k = calls[0]
+    ctx.ensure("coordinates-and-point-count-passed-through", z3.BoolVal(k["xyz"] is t.xyz and k["nsp"] == 77))
+    for i, el in enumerate(elements):
+        base = rterm(rO) if el == "O" else z3.RealVal(repr(float(table[el])))
+        got = k["radii"][i]
+        ctx.ensure(f"radius[{i}]=table[{el}](or-the-changed-value)+probe(to-float32)", z3.And(rterm(got) - (base + rterm(probe)) <= z3.RealVal("1e-6"), (base + rterm(probe)) - rterm(got) <= z3.RealVal("1e-6")))
+    want_map = list(range(5)) if mode == "atom" else res_of
+    ctx.ensure("mapping:identity-in-atom-mode,residue-index-in-residue-mode", z3.BoolVal([int(x) for x in k["mapping"]] == want_map))
+    selected = set(range(5)) if atom_indices is None else set(atom_indices)
+    ctx.ensure("mask:1-exactly-for-the-selected-atoms", z3.BoolVal([int(x) for x in k["mask"]] == [1 if i in selected else 0 for i in range(5)]))
+    ngroups = 5 if mode == "atom" else 3
+    groups_sel = {want_map[i] for i in selected}
+    o0 = k["out0"]
+    ctx.ensure("output-shape=(n_frames,n_groups)", z3.BoolVal(o0.shape == (2, ngroups)))
+    if o0.shape == (2, ngroups):
+        ok = all(float(o0[f][g]) == (0.0 if g in groups_sel else -1.0) for f in range(2) for g in range(ngroups))
+        ctx.ensure("output-initialised:0-for-groups-with-a-selected-atom,-1-otherwise", z3.BoolVal(ok))
+    ctx.ensure("returns-the-array-the-kernel-filled", z3.BoolVal(np.asarray(out.value, dtype=object).shape == (2, ngroups)))
+
+
+contract("C13", "mdtraj/geometry/sasa.py", "shrake_rupley", cases=[(m, s) for m in ("atom", "residue") for s in ("all", "subset")], replay="sasa", covers=["returned"], max_paths=50)(shrake_rupley_py)
